@@ -188,7 +188,15 @@ pub struct WsConn {
 }
 
 /// Serve `svc` on one half of a duplex and perform the WebSocket handshake on the other.
-pub async fn ws_connect(svc: StdSvc, stop: StopHandle) -> Result<WsConn, String> {
+pub async fn ws_connect<S, B>(svc: S, stop: StopHandle) -> Result<WsConn, String>
+where
+	S: tower::Service<http::Request<hyper::body::Incoming>, Response = http::Response<B>> + Clone + Send + 'static,
+	S::Future: Send,
+	S::Response: Send,
+	S::Error: Into<jsonrpsee_core::BoxError>,
+	B: http_body::Body<Data = Bytes> + Send + 'static,
+	B::Error: Into<jsonrpsee_core::BoxError>,
+{
 	let (a, b) = tokio::io::duplex(1 << 20);
 	let serve = tokio::spawn(async move {
 		jsonrpsee_server::serve_with_graceful_shutdown(a, svc, stop.shutdown()).await.map_err(|e| e.to_string())
